@@ -628,8 +628,8 @@ class Explorer:
             vs = [None if isinstance(v, tuple) else v for v in vs]
             if any(v is not None for v in vs):
                 val = ("T", tuple(vs))
-        elif rv["k"] == "Aggregate" and rv["agg"]["a"] == "Adt" and not rv["ops"]:
-            # fieldless enum variant constant: remember as ('V', adt, variant index)
+        elif rv["k"] == "Aggregate" and rv["agg"]["a"] == "Adt":
+            # enum variant (payload ignored): remember as ('V', adt, variant index)
             val = ("V", rv["agg"]["adt"], rv["agg"]["vi"])
         elif rv["k"] == "Discriminant":
             pl = rv["place"]
